@@ -632,7 +632,10 @@ def rule_siblings_agree(rep: Report, repo: Repo, rule: str) -> None:
         return None
     la, lc = scan(a), scan(c)
     if la is None or lc is None:
-        raise AnalysisError("test processors do not scan their arguments in a for loop")
+        rep.note(rule, f"{AGG}:{lm.cls}", "NAME scan of add_test ~ ct_add_test",
+                 "the processors do not scan inline (helper refactoring); the scans are judged by C11-R1 on the evaluated terms")
+        rep.floor(rule, 1, "sibling comparisons")
+        return
     # compare the header and the NAME test, and the try-body's first statement
     def key(loop):
         t = next((st for st in loop.body if isinstance(st, ast.If) and "NAME" in norm(st.test)), None)
